@@ -93,13 +93,20 @@ Proof. intros. apply priority_wins_one_step; assumption. Qed.
    would lose the second) *)
 Theorem C04_window_exact : forall ts te hs rs sc D l st0 p f tr sf,
   0 < rs -> 0 < hs -> 0 < ts < te -> (l < length st0)%nat -> nth l st0 true = false ->
-  steps f (g2 ts te hs rs sc D l st0 p) D (init_state (g2 ts te hs rs sc D l st0 p)) = Some (tr, sf) ->
+  steps f (gw ts te hs rs sc D l st0 p) D (init_state (gw ts te hs rs sc D l st0 p)) = Some (tr, sf) ->
   (forall e, In e tr -> nth l (snd e) false = active ts te (fst e) /\ snd e = set_nth st0 l (active ts te (fst e))) /\
   (ts <= s_prev sf -> In ts (map fst tr)) /\ (te <= s_prev sf -> In te (map fst tr)).
 Proof. intros ts te hs rs sc D l st0 p f tr sf H1 H2 H3 H4 H5 H6. exact (window_exact ts te hs rs sc D l st0 p H1 H2 H3 H4 f tr sf H5 H6). Qed.
+(* ... and the run exists and reaches the duration: total correctness for D a positive multiple of the hydraulic step *)
+Theorem C04_window_total : forall ts te hs rs sc D l st0 p,
+  0 < rs -> 0 < hs -> 0 < ts < te -> (l < length st0)%nat -> 0 < D -> D mod hs = 0 -> nth l st0 true = false ->
+  exists f tr sf, steps f (gw ts te hs rs sc D l st0 p) D (init_state (gw ts te hs rs sc D l st0 p)) = Some (tr, sf) /\
+    (forall e, In e tr -> nth l (snd e) false = active ts te (fst e)) /\
+    (ts <= D -> In ts (map fst tr)) /\ (te <= D -> In te (map fst tr)) /\ In D (map fst tr).
+Proof. intros ts te hs rs sc D l st0 p H1 H2 H3 H4 H5 H6 H7. exact (window_total ts te hs rs sc D l st0 p H1 H2 H3 H4 H5 H6 H7). Qed.
 (* non-vacuity: both instants inside the first hydraulic step (3600 s): solved steps at 0, 1000, 2500, 3600, 7200 *)
 Example C04_window_run :
-  option_map (fun r => map fst (fst r)) (steps 20 (g2 1000 2500 3600 360 0 7200 0 [false] 3) 7200 (init_state (g2 1000 2500 3600 360 0 7200 0 [false] 3)))
+  option_map (fun r => map fst (fst r)) (steps 20 (gw 1000 2500 3600 360 0 7200 0 [false] 3) 7200 (init_state (gw 1000 2500 3600 360 0 7200 0 [false] 3)))
   = Some [0; 1000; 2500; 3600; 7200].
 Proof. vm_compute. reflexivity. Qed.
 (* a rule IF SYSTEM TIME >= thr (thr > 0), for EVERY threshold, grid and duration: it acts at J * rule_step, the first multiple of the
@@ -126,6 +133,7 @@ Print Assumptions C04_at_time_control_exact.
 Print Assumptions C04_rule_ge_acts_at_first_instant.
 Print Assumptions C04_priority_wins_one_step.
 Print Assumptions C04_window_exact.
+Print Assumptions C04_window_total.
 Print Assumptions C04_at_time_fires_exactly.
 Print Assumptions C04_at_time_silent_otherwise.
 Print Assumptions C04_clock_control_daily_refuted.
